@@ -134,6 +134,7 @@ class SymExec:
         self.final_states = {}
         self.converged = False
         self.site_info = {}
+        self.call_old = {}  # (site, argidx) -> pointee value of a `&mut` argument at the call
 
     # ------------------------------------------------------------------ store access
     def default(self, root):
@@ -347,7 +348,9 @@ class SymExec:
             v = args[i]
             if ty is not None and ty.k == "ref" and ty.d.get("mut"):
                 L = v[1] if v[0] == "ref" else ("deref", v)
-                self.write(st, L, ("after", callterm, i, self.read(st, L)))
+                old = self.read(st, L)
+                self.call_old[(site, i)] = old
+                self.write(st, L, ("after", callterm, i, old))
             elif v[0] == "agg":
                 for sub in walk(v):
                     if sub[0] == "ref" and sub[2]:
